@@ -46,7 +46,7 @@ Integrate(da, g) ==
     ELSE [ outcome |-> "Rejected" ]
 
 \* the dispatch the implementation is known to use: on the LENGTH of the last dimension
-SizeOf(g, d) == CASE d = "n_face" -> g.nf [] d = "n_node" -> g.nn [] d = "n_edge" -> g.ne
+SizeOf(g, d) == CASE d = "n_face" -> g.nf [] d = "n_node" -> g.nn [] d = "n_edge" -> g.ne [] d = "ncol" -> g.nf
 IntegrateBySize(da, g) ==
     IF Len(da.dims) >= 1 /\ SizeOf(g, Last(da.dims)) = g.nf
     THEN [ outcome |-> "Value", dims |-> Front(da.dims), name |-> da.name, grid |-> g.id,
@@ -184,7 +184,10 @@ EmitOwnOnce == (stage = 0 /\ g.nf = 1 /\ g.nn = 1 /\ g.ne = 1 /\ g.lead = 0 /\ g
 Grids == ndJsonDeserialize(IOEnv.GRID_FILE)
 LeadShapes == { <<>>, <<2>>, <<2, 3>>, <<2, 1, 3>> }           \* rank 0..3 leading dimensions
 LeadNames  == <<"time", "lev", "member">>
-Kinds      == <<"n_face", "n_node", "n_edge">>
+\* "ncol": a last dimension that carries NO grid-element name but has n_face entries (a data file whose face
+\* dimension was not recognised): the implementation's documented fallback integrates it by length; the
+\* specification allows that or a rejection ("ValueOrRejected") -- a returned value must be the weighted sum
+Kinds      == <<"n_face", "n_node", "n_edge", "ncol">>
 Dtypes     == {"int64", "float32", "float64", "bool"}
 RECURSIVE Prod(_)
 Prod(s) == IF s = <<>> THEN 1 ELSE s[1] * Prod(Tail(s))
@@ -204,7 +207,7 @@ CONSTANT Quads,      \* Cases: set of quadrature names, e.g. {"t4", "g3"}
          Prevs,      \* Cases: preceding operations on the grid, e.g. {"none", "face_areas", "compute_other"}
          Scales      \* Cases: multipliers of the exact shrink map applied to the scalable patch
 
-CaseInit == /\ c \in { [ gi |-> gi, kind |-> k ] : gi \in 1..Len(Grids), k \in 1..3 }
+CaseInit == /\ c \in { [ gi |-> gi, kind |-> k ] : gi \in 1..Len(Grids), k \in 1..4 }
             /\ g = <<>> /\ x = <<>> /\ y = <<>> /\ stage = 0 /\ ji = 0
 \* the case grid.  Base block: every combination, face dimension last, numpy data, UxDataArray.integrate.
 \* Extension blocks (smaller): the face dimension FIRST, dask-backed data, and UxDataset.integrate on a
@@ -219,7 +222,7 @@ CaseNext == /\ DOMAIN c = {"gi", "kind"} /\ UNCHANGED <<g, x, y, stage, ji>>
                        ls \in AllLeads, dt \in Dtypes, q \in Quads, pv \in Prevs,
                        p \in (IF c.kind = 1 THEN Patterns ELSE {"ramp"}) }     \* non-face arrays need no data variety
                  \cup { CaseRec(ls, dt, q, "none", p, "first", "numpy", "dataarray") :
-                       ls \in AllLeads \ { <<>> }, dt \in {"float64", "int64"}, q \in Quads,
+                       ls \in AllLeads \ { <<>> }, dt \in (IF c.kind = 4 THEN {} ELSE {"float64", "int64"}), q \in Quads,
                        p \in (IF c.kind = 1 THEN {"ramp", "mixed"} ELSE {"ramp"}) }
                  \cup { CaseRec(ls, dt, q, "none", "ramp", "last", "dask", "dataarray") :
                        ls \in AllLeads, dt \in {"float64", "int64"}, q \in Quads }
@@ -274,13 +277,16 @@ CaseExpected ==
     THEN [ outcome |-> "Value", dims |-> Front(da.dims), name |-> da.name, shape |-> c.lead, coeff |-> da.data ]
     ELSE IF HasFaceDim(da)
     THEN [ outcome |-> "ValueOrRejected", dims |-> WithoutFace(da.dims), name |-> da.name, shape |-> c.lead, coeff |-> da.data ]
+    ELSE IF Last(da.dims) = "ncol"
+    THEN [ outcome |-> "ValueOrRejected", dims |-> Front(da.dims), name |-> da.name, shape |-> c.lead, coeff |-> da.data ]
     ELSE [ outcome |-> "Rejected" ]
 \* a coincident-size case: the size-based dispatch would accept what the specification rejects
-CaseCoincident == LET gr == Grids[c.gi] IN c.kind # 1 /\ SizeOf(gr, Kinds[c.kind]) = gr.nf
-CaseSound == CaseFull => /\ (CaseExpected.outcome = "Rejected" <=> c.kind # 1)
+CaseCoincident == LET gr == Grids[c.gi] IN c.kind \in {2, 3} /\ SizeOf(gr, Kinds[c.kind]) = gr.nf
+CaseSound == CaseFull => /\ (CaseExpected.outcome = "Rejected" <=> c.kind \in {2, 3})
                         /\ (CaseExpected.outcome = "Value" <=> (c.kind = 1 /\ c.layout = "last"))
                         /\ (CaseExpected.outcome # "Rejected" => CaseExpected.dims \o <<"n_face">> = CaseArr.dims
-                                                                \/ <<"n_face">> \o CaseExpected.dims = CaseArr.dims)
+                                                                \/ <<"n_face">> \o CaseExpected.dims = CaseArr.dims
+                                                                \/ CaseExpected.dims \o <<"ncol">> = CaseArr.dims)
 CaseSquare == Len(c.lead) >= 1 /\ c.lead[Len(c.lead)] = Grids[c.gi].nf
 CaseEmit == CaseFull => PrintT(<<"K", [ grid |-> Grids[c.gi].id, kind |-> Kinds[c.kind], lead |-> c.lead, dtype |-> c.dtype,
                                         quad |-> c.quad, prev |-> c.prev, pat |-> c.pat, dims |-> CaseArr.dims,
